@@ -1396,6 +1396,82 @@ def _correspondence(ctx):
                 muts.append(v)
         _model_rt(ctx, 'rtmut_' + cls, cls, muts, reader)
 
+    # Wea: annual, partial continuous, discontinuous (few: the dictionaries are large)
+    wspecs = [{'cls': 'Wea', 'location': gen_location(rng), 'annual': True, 'timestep': 1, 'leap': False}]
+    if not ctx.quick:
+        wspecs.append({'cls': 'Wea', 'location': gen_location(rng), 'annual': True, 'timestep': 2, 'leap': True})
+    for _ in range(6 * n):
+        m = rng.randrange(1, 13)
+        d0 = rng.randrange(1, 27)
+        full = rng.random() < 0.5
+        sh, eh = (0, 23) if full else (rng.randrange(0, 12), rng.randrange(12, 24))
+        wspecs.append({'cls': 'Wea', 'location': gen_location(rng), 'annual': False,
+                       'ap': {'cls': 'AnalysisPeriod', 'args': [m, d0, sh, m, d0 + rng.choice([0, 1, 2]), eh, 1, False]}})
+    wds = real_dicts(wspecs)
+    _model_rt(ctx, 'rt_Wea', 'Wea', wds, L['wea'].Wea.from_dict)
+    wm = []
+    for d in wds:
+        if len(d['direct_normal_irradiance']) > 2000 and ctx.quick and wm:
+            continue
+        for v in _mutations(d, rng, 3, strings=False):
+            if v.get('timestep', 1) is None or v.get('timestep', 1) not in TIMESTEPS:
+                v['timestep'] = 1          # a null / odd timestep takes constructor paths that are not modelled
+            wm.append(v)
+        v = copy.deepcopy(d)
+        if 'datetimes' in v and rng.random() < 0.7:
+            r = rng.random()
+            if r < 0.4:
+                v['datetimes'] = v['datetimes'][:-1]
+            elif r < 0.7:
+                v['direct_normal_irradiance'] = v['direct_normal_irradiance'][:-1]
+            else:
+                v['is_leap_year'] = True
+            wm.append(v)
+    _model_rt(ctx, 'rtmut_Wea', 'Wea', wm, L['wea'].Wea.from_dict)
+
+    # text forms: str.split, data-type text, CSV header strings
+    seps = [' | ', ': ', ',']
+    pieces = ['', 'a', 'k: v', 'x | y', 'p |', '| q', ' ', 'a: b: c', 'city: Boston', ' |', '|', ': ', 'a,b', u'Kö: ln']
+    scases = []
+    for _ in range(400 * n):
+        sep = rng.choice(seps)
+        k = rng.randrange(0, 5)
+        txt = rng.choice(seps + ['', ' ']).join(rng.choice(pieces) for _ in range(k))
+        scases.append((sep, txt))
+    core.compare_batch(ctx, 'split', scases, lambda c: 'split %s %s' % (_hx(c[0]), _hx(c[1]) or '00'),
+                       lambda c: 'ok ' + wire(c[1].split(c[0])), canon=canon_line, key=repr)
+    tcases = [_default_name(t) for t in sorted(_types())] + [t for t in sorted(_types())][:30] + \
+        ['dry bulb temperature', 'Foo | bar', 'Foo', 'a | b | c', 'Foo | bar | 0 | 1 | F | None | True | False',
+         'Temperature | C', 'x | ', ' | y', '']
+    core.compare_batch(ctx, 'dt_text', tcases, lambda t: 'dt_text ' + (_hx(t) or '00'),
+                       lambda t: 'ok ' + wire(L['DataTypeBase'].from_string(t).to_dict()),
+                       canon=canon_line, key=repr)
+    hcases = []
+    for _ in range(300 * n):
+        h = gen_header(rng)
+        md = h.get('meta')
+        if md and any(isinstance(v, (float, list, dict)) for v in md.values()):
+            md = {k: v for k, v in md.items() if not isinstance(v, (float, list, dict))}
+            h['meta'] = md
+        if rng.random() < 0.25:
+            h['meta'] = dict(rng.sample([('a', 'p |'), ('b', '| q'), ('c: d', 'e'), ('f', ''), ('', 'g'),
+                                         ('h', 'i: j'), ('k', ' | '), ('l', 'm')], rng.randrange(1, 4)))
+        hcases.append((rng.random() < 0.5, h))
+    hd = []
+    for per_row, hs in hcases:
+        try:
+            hd.append((per_row, json.loads(json.dumps(build(hs).to_dict()))))
+        except Exception:
+            ctx.count('spec_not_constructible')
+
+    def impl_csv(c):
+        h = L['hd'].Header.from_dict(copy.deepcopy(c[1]))
+        back = L['hd'].Header.from_csv_strings(h.to_csv_strings(c[0]), h.analysis_period)
+        return 'ok ' + wire(back.to_dict())
+
+    outs = core.compare_batch(ctx, 'hdr_csv', hd, lambda c: 'hdr_csv %s %s' % ('1' if c[0] else '0', wire(c[1])),
+                              impl_csv, canon=lambda l: 'skip' if l == 'skip' else canon_line(l), key=repr)
+
     # collections: every class and immutable twin
     for kind in sorted(COLL_CLASSES):
         for imm in (False, True):
